@@ -414,6 +414,22 @@ impl Env {
           },
         )
       }
+      Src::IntervalDefault(ms) => {
+        observables::interval(Duration::from_millis(*ms), schedulers::default_scheduler()).map(
+          move |n: u64| {
+            let _t = &tok;
+            V::new(&ctx, P::I(n as i64))
+          },
+        )
+      }
+      Src::TimerDefault(ms) => {
+        observables::timer(Duration::from_millis(*ms), schedulers::default_scheduler()).map(
+          move |_: ()| {
+            let _t = &tok;
+            V::new(&ctx, P::U)
+          },
+        )
+      }
     }
   }
 
